@@ -3982,6 +3982,11 @@ def add_measures(part):
         ts_start_times, ts_end_times, beats_per_measure
     ):
         pos = ts_start
+        # an existing measure may reach across the time signature change:
+        # continue after it
+        for m in part.iter_all(Measure):
+            if m.end is not None and m.start.t < pos < m.end.t:
+                pos = m.end.t
 
         while pos < ts_end:
             measure_start = pos
